@@ -23,6 +23,8 @@ iv._iv = iv
 from . import ctx_mp as _ctx_mp
 _ctx_mp._mpf_module.mpf = mp.mpf
 _ctx_mp._mpf_module.mpc = mp.mpc
+from .matrices import matrices as _matrices_module
+_matrices_module.matrix = mp.matrix
 
 make_mpf = mp.make_mpf
 make_mpc = mp.make_mpc
